@@ -31,8 +31,10 @@ pub fn observe(m: &Model) -> (Value, Value, Value) {
                     .unwrap_or(false),
                 Err(_) => false,
             };
+            // the obstruction factors asked of the model directly (not through the indicators' props)
+            let direct: Map<String, Value> = m.compute_fshobst().iter().map(|(id, f)| (id.to_string(), json!(f))).collect();
             (
-                json!({"outcome": "ok", "ind": v, "vent_u": vent_u, "loads_back": loads_back}),
+                json!({"outcome": "ok", "ind": v, "vent_u": vent_u, "loads_back": loads_back, "fshobst_direct": direct}),
                 Value::Object(fsh),
                 Value::Object(radjul),
             )
@@ -56,6 +58,9 @@ pub fn profile(i: usize) -> GenOpts {
         unused: i % 5 == 0,
         odd: i % 3 == 0,
         schedules: i % 4 == 1,
+        // one model in five is a box building with coherent positions and a few shades: computed obstruction factors below 1
+        positions: i % 5 == 2,
+        shades: if i % 5 == 2 { 3 + i % 4 } else { 0 },
         ..Default::default()
     }
 }
